@@ -197,6 +197,12 @@ def _mech(kind, desc):
     return None
 
 
+def _hi(x):
+    import hashlib
+
+    return int(hashlib.md5(repr(x).encode()).hexdigest()[:8], 16)
+
+
 def build_cases(tier, seed):
     rng = core.rng_for(seed, "c11")
     cases = []
@@ -223,7 +229,7 @@ def build_cases(tier, seed):
         ov = overlapping(t)
         if tier == "quick":
             # every ordered pair and triple at top level; other placements for a rotating third
-            pls = ["top"] + [pl for pl in PLACEMENTS[1:] if (hash(t) + len(pl) + seed) % 6 == 0 or (ov and len(t) == 3 and (hash(t) + seed) % 5 == 0 and pl == "child")]
+            pls = ["top"] + [pl for pl in PLACEMENTS[1:] if (_hi(t) + len(pl) + seed) % 6 == 0 or (ov and len(t) == 3 and (_hi(t) + seed) % 5 == 0 and pl == "child")]
         else:
             pls = PLACEMENTS
         for pl in pls:
@@ -237,7 +243,7 @@ def build_cases(tier, seed):
     # ---- cycles
     for ln in (1, 2, 3, 4):
         for edges in itertools.product(EDGE_KINDS, repeat=ln):
-            if tier == "quick" and ln == 4 and (hash(edges) + seed) % 4 != 0:
+            if tier == "quick" and ln == 4 and (_hi(edges) + seed) % 4 != 0:
                 continue
             add("cycle", "CIRCULAR_CALL", prog_cycle("y%d" % n[0], list(edges)), {"edges": list(edges)})
     # ---- eval in eval
